@@ -30,14 +30,28 @@ def window(v, length, what="index"):
     return ex.concretize(v, length + 1)
 
 
+class Diverged(Exception):
+    """the subroutine executed more instructions than the harness step bound (treated as a violation by the checks:
+    every reference program terminates well below it)"""
+
+
 class TraceExecutor(Executor):
     """Records quantum events; measurement outcomes come from a script (symbolic bits)."""
+
+    MAX_STEPS = 400
 
     def __init__(self, name="ctrl", outcomes=(), **kw):
         super().__init__(name=name, **kw)
         self.trace: List[tuple] = []
         self.outcomes = list(outcomes)
         self.faults: List[BaseException] = []
+        self.steps = 0
+
+    def _execute_command(self, subroutine_id, command):
+        self.steps += 1
+        if self.steps > self.MAX_STEPS:
+            raise Diverged(f"more than {self.MAX_STEPS} instructions executed")
+        return super()._execute_command(subroutine_id, command)
 
     # --- quantum extension points
     def _do_single_qubit_instr(self, instr, subroutine_id, address):
@@ -96,6 +110,27 @@ class TraceExecutor(Executor):
         return super()._initialize_array(app_id, address, length)
 
 
+def _wire_values(instr):
+    """What serialisation does to immediates: an int-subclass object (e.g. an SDK Future, which is an `int` with payload 0)
+    travels as its integer payload.  Proxies (SymInt) are left alone."""
+    from netqasm.lang.operand import Immediate
+    ops = instr.operands
+    changed = False
+    new_ops = []
+    for o in ops:
+        if isinstance(o, Immediate) and isinstance(o.value, int) and type(o.value) is not int and not isinstance(o.value, SymInt) \
+                and not hasattr(o.value, "_sym_term"):
+            new_ops.append(Immediate(int.__int__(o.value)))
+            changed = True
+        else:
+            new_ops.append(o)
+    if not changed:
+        return instr
+    new = instr.from_operands(new_ops)
+    new.lineno = instr.lineno
+    return new
+
+
 class PipeConnection(BaseNetQASMConnection):
     """Commits Subroutine objects directly (no ctypes) to a real Executor subclass."""
 
@@ -126,6 +161,7 @@ class PipeConnection(BaseNetQASMConnection):
                                                 remote_epr_socket_id=msg.remote_epr_socket_id))
 
     def commit_subroutine(self, subroutine: Subroutine, block=True, callback=None):
+        subroutine.instructions = [_wire_values(i) for i in subroutine.instructions]
         self.committed.append(subroutine)
         self.executor.consume_execute_subroutine(subroutine)
 
